@@ -100,6 +100,15 @@ pub fn ops() -> Vec<Op> {
     op!("tree_format_opt(no context)", |e| { e.tree_format_opt(false, None); e.tree_format_opt(true, None); });
     op!("summary(short)", |e| { let ctx = bc_envelope::FormatContext::default(); for n in [0usize, 1, 5, 10, 40] { let _ = e.summary(n, &ctx); } });
     op!("format_opt(no context)", |e| { e.format_opt(None); });
+    op!("hex_opt", |e| { e.hex_opt(true, None); e.hex_opt(false, None); });
+    op!("tree_format_with_target", |e| { let t: HashSet<Digest> = e.shallow_digests(); e.tree_format_with_target(false, &t); e.tree_format_with_target(true, &t); e.tree_format_with_target_opt(true, &HashSet::new(), None); });
+    op!("short_id", |e| { e.short_id(); });
+    op!("flat-context", |e| { let c = bc_envelope::FormatContext::default().set_flat(true); let _ = c.is_flat(); e.format_opt(Some(&c)); });
+    op!("registry-name-helpers", |e| { if let Some(k) = e.as_known_value() { let _ = KnownValuesStore::name_for_known_value(k.clone(), None); let _ = KnownValuesStore::known_value_for_raw_value(k.value(), None); } let _ = KnownValuesStore::known_value_for_name("isA", None);
+        if let Ok(f) = e.extract_subject::<Function>() { let _ = bc_envelope::extension::expressions::FunctionsStore::name_for_function(&f, None); let _ = f.named_name(); }
+        if let Ok(p) = e.extract_subject::<Parameter>() { let _ = bc_envelope::extension::expressions::ParametersStore::name_for_parameter(&p, None); } });
+    op!("new_or_null/none", |e| { Envelope::new_or_null(Some(e.clone())); Envelope::new_or_null(None::<Envelope>); Envelope::new_or_none(Some(e.clone())); Envelope::new_or_none(None::<Envelope>); });
+    op!("try_from_cbor", |e| { let _ = Envelope::try_from_cbor(e.tagged_cbor()); let _ = Envelope::try_from_cbor(e.untagged_cbor()); let _ = Envelope::try_from(e.tagged_cbor()); });
     // digests / walk
     op!("digests", |e| { e.digests(0); e.digests(1); e.digests(2); e.deep_digests(); e.shallow_digests(); }); op!("structural_digest", |e| { e.structural_digest(); }); op!("elements_count", |e| { e.elements_count(); });
     op!("walk", |e| { let vv = |_e: Envelope, _l: usize, _ed: EdgeType, _p: Option<()>| -> Option<()> { None }; e.walk(false, &vv); e.walk(true, &vv); });
